@@ -187,7 +187,7 @@ def main():
             R.bad("anchor-lost", "anchor no longer resolves: %s" % e)
         # FINGERPRINT (DESIGN 3.13): every function of the property's anchor files against the reviewed reference (rules/fp/<prop>.json)
         import fingerprint
-        R.guard("fp", lambda: fingerprint.check(R, F, prop))
+        R.guard("fp", lambda: fingerprint.check(R, F, prop, S))
     except Exception as e:
         sys.stderr.write(traceback.format_exc())
         print("ERROR machinery failure for %s: %s" % (prop, e))
